@@ -1293,3 +1293,380 @@ Proof.
 Qed.
 
 End Recovery.
+
+(* ---- 4.11 from workloads to chains ---- *)
+Record sess_ok (N P : Z) (s : session) : Prop := {
+  so_obj : 0 < s_obj s;
+  so_ver : 0 < s_ver s;
+  so_len : 0 < s_len s;
+  so_mlen : 0 < s_mlen s <= s_len s;
+  so_mlen_slot : s_mlen s <= Z.min P (dc_page_size - dc_cell_header_size);
+  so_ssz : s_ssz s = 0;
+  so_slots : length (s_slots s) = length (chunks P (stream (s_obj s) (s_len s)));
+  so_range : forall c, In c (s_slots s) -> 0 <= c < N }.
+
+(* the workload writes every slot at most once; keys hash to different filenos; object ids are distinct *)
+Record write_once (N P : Z) (ss : list session) : Prop := {
+  wo_N : 0 < N;
+  wo_P : 0 < P;
+  wo_sess : forall s, In s ss -> sess_ok N P s;
+  wo_slots : NoDup (concat (map s_slots ss));
+  wo_files : NoDup (map (fun s => fileno_of N (s_key s)) ss);
+  wo_objs : NoDup (map s_obj ss) }.
+
+Definition chain_of (P : Z) (sm : session * nat) : chain :=
+  mkChain (s_key (fst sm)) (s_len (fst sm)) (writes_of P (fst sm)) (snd sm).
+
+Lemma split_n_fst : forall P ss n, map fst (split_n P ss n) = ss.
+Proof. induction ss as [|s ss IH]; intros n; cbn [split_n map fst]; [reflexivity| now rewrite IH]. Qed.
+
+Lemma split_n_le : forall P ss n sm, In sm (split_n P ss n) -> (snd sm <= nwrites P (fst sm))%nat.
+Proof.
+  induction ss as [|s ss IH]; intros n sm H; [destruct H|]. cbn [split_n In] in H. destruct H as [<- | H].
+  - cbn [fst snd]. lia.
+  - apply (IH _ _ H).
+Qed.
+
+Lemma firstn_min_length : forall A (l : list A) n, firstn (Nat.min n (length l)) l = firstn n l.
+Proof.
+  intros A l n. destruct (Nat.le_ge_cases n (length l)) as [H | H].
+  - now rewrite Nat.min_l.
+  - rewrite Nat.min_r by exact H. now rewrite !firstn_all2 by lia.
+Qed.
+
+Lemma firstn_all_writes : forall P ss n,
+  firstn n (all_writes P ss) = concat (map (fun sm => ch_written (chain_of P sm)) (split_n P ss n)).
+Proof.
+  induction ss as [|s ss IH]; intros n; [cbn; apply firstn_nil|].
+  change (all_writes P (s :: ss)) with (writes_of P s ++ all_writes P ss).
+  cbn [split_n map concat]. rewrite firstn_app, IH. f_equal.
+  unfold ch_written, chain_of, nwrites. cbn [ch_m ch_ws fst snd]. symmetry. apply firstn_min_length.
+Qed.
+
+Lemma nodup_concat_in : forall A (L : list (list A)) l, NoDup (concat L) -> In l L -> NoDup l.
+Proof.
+  induction L as [|a L IH]; intros l Hnd Hin; [destruct Hin|]. cbn [concat] in Hnd. destruct Hin as [<- | Hin].
+  - apply (nodup_app_l _ _ _ Hnd).
+  - apply IH; [|exact Hin]. clear - Hnd. induction a as [|x a IHa]; [exact Hnd|]. cbn [app] in Hnd. inversion Hnd; auto.
+Qed.
+
+Lemma linked_next_range : forall N ws e, linked_to ws e -> -1 <= e < N ->
+  (forall w, In w ws -> 0 <= w_slot w < N) -> forall w, In w ws -> -1 <= h_next (w_hdr w) < N.
+Proof.
+  induction ws as [|a ws IH]; intros e Hl He Hr w Hw; [destruct Hw|]. cbn [linked_to] in Hl. destruct Hl as [Hn Hl].
+  destruct Hw as [<- | Hw].
+  - rewrite Hn. destruct ws as [|b ws']; [exact He|]. specialize (Hr b (or_intror (or_introl eq_refl))). lia.
+  - apply (IH e Hl He); [intros w' Hw'; apply Hr; right; exact Hw'| exact Hw].
+Qed.
+
+Lemma oinfo_of_in : forall ss s, NoDup (map s_obj ss) -> In s ss ->
+  oinfo_of ss (s_obj s) = Some (mkOinfo (s_key s) (s_len s) (s_mlen s) (s_ssz s)).
+Proof.
+  intros ss s Hnd Hin. unfold oinfo_of.
+  assert (find (fun x => s_obj x =? s_obj s) ss = Some s) as ->; [|reflexivity].
+  induction ss as [|a ss IH]; [destruct Hin|]. cbn [map] in Hnd. inversion Hnd as [|? ? Hn Hd]; subst.
+  cbn [find]. destruct Hin as [-> | Hin]; [rewrite Z.eqb_refl; reflexivity|].
+  destruct (s_obj a =? s_obj s) eqn:E; [|apply IH; assumption].
+  exfalso. apply Hn. apply Z.eqb_eq in E. rewrite E. apply in_map, Hin.
+Qed.
+
+Lemma psz_sum_data : forall ws, (forall w, In w ws -> h_psz (w_hdr w) = Z.of_nat (length (w_data w))) ->
+  psz_sum ws = Z.of_nat (length (concat (map w_data ws))).
+Proof.
+  induction ws as [|w ws IH]; intros H; [reflexivity|]. cbn [psz_sum fold_right map concat]. fold (psz_sum ws).
+  rewrite app_length, Nat2Z.inj_add, <- IH, (H w (or_introl eq_refl)); [reflexivity|].
+  intros w' Hw'. apply H. right. exact Hw'.
+Qed.
+
+Section Bridge.
+Variables (N P : Z) (ss : list session).
+Hypothesis WO : write_once N P ss.
+
+Let oi := oinfo_of ss.
+
+Lemma sess_writes : forall s, In s ss ->
+  let ws := writes_of P s in
+  map w_slot ws = s_slots s /\ map w_data ws = chunks P (stream (s_obj s) (s_len s)) /\
+  (forall w, In w ws -> h_key (w_hdr w) = s_key s /\ h_ver (w_hdr w) = s_ver s /\ h_first (w_hdr w) = hd 0 (s_slots s) /\
+                        h_psz (w_hdr w) = Z.of_nat (length (w_data w))) /\
+  linked_to ws (-1) /\
+  (forall w r, ws = w :: r -> h_esz (w_hdr w) = match r with [] => s_len s | _ :: _ => 0 end) /\
+  ws <> [].
+Proof.
+  intros s Hs ws. pose proof (wo_sess N P ss WO s Hs) as SO.
+  pose proof (mk_writes_facts (chunks P (stream (s_obj s) (s_len s))) (s_slots s) (s_key s) (s_ver s)
+                (hd 0 (s_slots s)) (s_len s) (eq_sym (so_slots N P s SO))) as F. cbv zeta in F.
+  fold (writes_of P s) in F. fold ws in F. destruct F as (F1 & F2 & F3 & F4 & F5).
+  split; [exact F1|]. split; [exact F2|]. split; [exact F3|]. split; [exact F4|]. split; [exact F5|].
+  intros E. assert (Hc : chunks P (stream (s_obj s) (s_len s)) = []) by (rewrite <- F2, E; reflexivity).
+  apply (chunks_nonempty P (stream (s_obj s) (s_len s))); [|exact Hc].
+  pose proof (so_len N P s SO). intros E'. apply (f_equal (@length atom)) in E'. rewrite stream_length in E'. cbn in E'. lia.
+Qed.
+
+Lemma chunk_sizes : forall s ch, In s ss -> In ch (chunks P (stream (s_obj s) (s_len s))) -> 0 < Z.of_nat (length ch) <= P.
+Proof.
+  intros s ch Hs Hch. unfold chunks in Hch. pose proof (wo_P N P ss WO).
+  apply chunks_aux_sizes in Hch; lia.
+Qed.
+
+Lemma chunks_stream : forall s, In s ss -> concat (chunks P (stream (s_obj s) (s_len s))) = stream (s_obj s) (s_len s).
+Proof. intros s Hs. unfold chunks. pose proof (wo_P N P ss WO). apply chunks_aux_concat; lia. Qed.
+
+Lemma sess_meta : forall s w r, In s ss -> writes_of P s = w :: r -> meta_ok P oi w.
+Proof.
+  intros s w r Hs Hws. pose proof (wo_sess N P ss WO s Hs) as SO. pose proof (wo_P N P ss WO) as HP.
+  destruct (sess_writes s Hs) as (_ & F2 & _). rewrite Hws in F2. cbn [map] in F2.
+  assert (Hdata : w_data w = firstn (Z.to_nat P) (stream (s_obj s) (s_len s))).
+  { unfold chunks in F2. symmetry in F2. apply chunks_aux_first in F2. exact F2. }
+  destruct (so_mlen N P s SO) as (Hm0 & Hml). pose proof (so_mlen_slot N P s SO) as Hms.
+  set (B := Z.min P (dc_page_size - dc_cell_header_size)) in *.
+  assert (Hpre : firstn (Z.to_nat (s_mlen s)) (meta_buf P w) = stream (s_obj s) (s_mlen s)).
+  { unfold meta_buf, read_area. fold B. rewrite Hdata, firstn_firstn.
+    rewrite firstn_app, firstn_firstn.
+    rewrite firstn_length, stream_length.
+    replace (Z.to_nat (s_mlen s) - Nat.min (Nat.min (Z.to_nat B) (Z.to_nat P)) (Z.to_nat (s_len s)))%nat with 0%nat by lia.
+    cbn [firstn]. rewrite app_nil_r.
+    replace (Nat.min (Z.to_nat (s_mlen s)) (Nat.min (Z.to_nat B) (Z.to_nat P))) with (Z.to_nat (s_mlen s)) by lia.
+    apply firstn_stream. lia. }
+  pose proof (oinfo_of_in ss s (wo_objs N P ss WO) Hs) as Hoi. fold oi in Hoi.
+  split.
+  - destruct (meta_buf P w) as [|[o i] buf'] eqn:Eb.
+    + unfold stream in Hpre. destruct (Z.to_nat (s_mlen s)) eqn:E; [lia| discriminate Hpre].
+    + unfold stream in Hpre. destruct (Z.to_nat (s_mlen s)) eqn:E; [lia|]. cbn [firstn zseq map] in Hpre.
+      injection Hpre as Ho _ _. subst o. apply zeroed_false. apply (so_obj N P s SO).
+  - exists (mkOinfo (s_key s) (s_len s) (s_mlen s) (s_ssz s)). split; [|apply (so_ssz N P s SO)].
+    apply (parse_meta_stream oi (s_obj s)); auto.
+Qed.
+
+Lemma serve_full : forall s m, In s ss -> serve oi (chain_of P (s, m)) = Some (full_stream s).
+Proof.
+  intros s m Hs. pose proof (wo_sess N P ss WO s Hs) as SO.
+  destruct (sess_writes s Hs) as (_ & F2 & F3 & _).
+  unfold serve, chain_of. cbn [ch_ws ch_key fst].
+  rewrite psz_sum_data by (intros w Hw; apply (F3 w Hw)).
+  rewrite F2, (chunks_stream s Hs), Nat2Z.id, firstn_all.
+  destruct (so_mlen N P s SO) as (Hm0 & Hml). pose proof (so_mlen_slot N P s SO) as Hms.
+  pose proof (oinfo_of_in ss s (wo_objs N P ss WO) Hs) as Hoi. fold oi in Hoi.
+  rewrite (parse_meta_stream oi (s_obj s) _ _ Hoi); cbn [o_mlen o_key o_len]; [|exact Hm0|].
+  - rewrite key_eqb_refl. unfold full_stream. f_equal. rewrite <- (stream_length (s_obj s) (s_len s)). apply firstn_all.
+  - rewrite firstn_firstn. replace (Nat.min (Z.to_nat (s_mlen s)) (Z.to_nat dc_page_size)) with (Z.to_nat (s_mlen s)).
+    + apply firstn_stream. lia.
+    + assert (s_mlen s <= dc_page_size) by (unfold dc_page_size, dc_cell_header_size in *; lia). lia.
+Qed.
+
+Lemma split_n_completed : forall l n s m, In (s, m) (split_n P l n) -> m = nwrites P s -> (0 < nwrites P s)%nat ->
+  completed P l n s.
+Proof.
+  induction l as [|a l IH]; intros n s m Hin Hm Hpos; [destruct Hin|].
+  cbn [split_n In] in Hin. destruct Hin as [E | Hin].
+  - injection E as Ea Em. subst a. exists [], l. split; [reflexivity|]. cbn [app]. unfold all_writes. cbn [map concat].
+    rewrite app_nil_r. fold (nwrites P s). lia.
+  - destruct (IH _ _ _ Hin Hm Hpos) as (l1 & l2 & -> & Hlen). exists (a :: l1), l2. split; [reflexivity|].
+    assert (Hs : (nwrites P s <= length (all_writes P (l1 ++ [s])))%nat).
+    { unfold all_writes. rewrite map_app, concat_app, app_length. cbn [map concat]. rewrite app_nil_r. unfold nwrites. lia. }
+    change ((a :: l1) ++ [s]) with (a :: (l1 ++ [s])). unfold all_writes in *. cbn [map concat]. rewrite app_length.
+    fold (nwrites P a). lia.
+Qed.
+
+Lemma completed_split : forall l n s, completed P l n s -> In (s, nwrites P s) (split_n P l n).
+Proof.
+  intros l n s (l1 & l2 & -> & Hlen). revert n Hlen. induction l1 as [|a l1 IH]; intros n Hlen.
+  - cbn [app split_n]. left. f_equal. cbn [app] in Hlen. unfold all_writes in Hlen. cbn [map concat] in Hlen.
+    rewrite app_nil_r in Hlen. fold (nwrites P s) in Hlen. lia.
+  - cbn [app split_n]. right. apply IH. change ((a :: l1) ++ [s]) with (a :: (l1 ++ [s])) in Hlen.
+    unfold all_writes in *. cbn [map concat] in Hlen. rewrite app_length in Hlen. fold (nwrites P a) in Hlen. lia.
+Qed.
+
+Section AtCrash.
+Variable n : nat.
+
+Let L := split_n P ss n.
+Let cs := map (chain_of P) L.
+Let d := crash_disk (all_writes P ss) n None.
+
+Lemma L_in : forall sm, In sm L -> In (fst sm) ss.
+Proof. intros sm H. rewrite <- (split_n_fst P ss n). apply in_map, H. Qed.
+
+Lemma slots_of_writes : map w_slot (all_writes P ss) = concat (map s_slots ss).
+Proof.
+  unfold all_writes. rewrite concat_map, map_map. f_equal. apply map_ext_in. intros s Hs. apply (sess_writes s Hs).
+Qed.
+
+Lemma cs_slots : concat (map (fun c => map w_slot (ch_ws c)) cs) = concat (map s_slots ss).
+Proof.
+  unfold cs. rewrite map_map. f_equal.
+  replace (map s_slots ss) with (map s_slots (map fst L)) by (unfold L; now rewrite split_n_fst).
+  rewrite map_map. apply map_ext_in.
+  intros sm Hsm. cbn [chain_of ch_ws]. apply (sess_writes (fst sm) (L_in sm Hsm)).
+Qed.
+
+Lemma cs_files : map (ch_f N) cs = map (fun s => fileno_of N (s_key s)) ss.
+Proof.
+  unfold cs. rewrite map_map.
+  replace (map (fun s => fileno_of N (s_key s)) ss) with (map (fun s => fileno_of N (s_key s)) (map fst L))
+    by (unfold L; now rewrite split_n_fst).
+  rewrite map_map. reflexivity.
+Qed.
+
+Lemma cs_good : forall c, In c cs -> good_chain N P oi c.
+Proof.
+  intros c Hc. unfold cs in Hc. apply in_map_iff in Hc. destruct Hc as (sm & <- & Hsm).
+  pose proof (L_in sm Hsm) as Hs. pose proof (wo_sess N P ss WO _ Hs) as SO.
+  destruct (sess_writes _ Hs) as (F1 & F2 & F3 & F4 & F5 & F6).
+  assert (Hc0 : ch_c0 (chain_of P sm) = hd 0 (s_slots (fst sm))).
+  { unfold ch_c0, chain_of. cbn [ch_ws]. rewrite <- F1. destruct (writes_of P (fst sm)); reflexivity. }
+  assert (Hrange : forall w, In w (writes_of P (fst sm)) -> 0 <= w_slot w < N).
+  { intros w Hw. apply (so_range N P _ SO). rewrite <- F1. apply in_map, Hw. }
+  constructor; cbn [chain_of ch_ws ch_key ch_T ch_m].
+  - exact F6.
+  - apply (split_n_le P ss n sm Hsm).
+  - intros w Hw. destruct (F3 w Hw) as (A & B & C & D).
+    assert (Hch : 0 < Z.of_nat (length (w_data w)) <= P).
+    { apply (chunk_sizes (fst sm)); [exact Hs|]. rewrite <- F2. apply in_map, Hw. }
+    pose proof (so_ver N P _ SO). pose proof (wo_N N P ss WO).
+    rewrite Hc0.
+    repeat split; try lia; try (apply Hrange, Hw); try apply (linked_next_range N _ (-1) F4); auto; try lia.
+  - exact F4.
+  - intros w r Hws. split; [apply (F5 w r Hws)|]. intros ->.
+    destruct (F3 w) as (_ & _ & _ & D); [rewrite Hws; left; reflexivity|]. rewrite D.
+    assert (Hd : w_data w = stream (s_obj (fst sm)) (s_len (fst sm))).
+    { rewrite <- (chunks_stream _ Hs), <- F2, Hws. cbn [map concat]. now rewrite app_nil_r. }
+    rewrite Hd, stream_length. pose proof (so_len N P _ SO). lia.
+  - intros w r Hws. apply (sess_meta (fst sm) w r Hs Hws).
+  - rewrite F1. apply (nodup_concat_in _ (map s_slots ss)); [apply (wo_slots N P ss WO)| apply in_map, Hs].
+  - intros w Hw. apply (F3 w Hw).
+Qed.
+
+Lemma nodup_firstn : forall A k (l : list A), NoDup l -> NoDup (firstn k l).
+Proof. intros A k l H. rewrite <- (firstn_skipn k l) in H. apply (nodup_app_l _ _ _ H). Qed.
+
+Lemma W_eq : firstn n (all_writes P ss) = concat (map ch_written cs).
+Proof. unfold cs. rewrite map_map. apply firstn_all_writes. Qed.
+
+Lemma W_nodup : NoDup (map w_slot (firstn n (all_writes P ss))).
+Proof. rewrite <- firstn_map. apply nodup_firstn. rewrite slots_of_writes. apply (wo_slots N P ss WO). Qed.
+
+Lemma d_eq : d = disk_after (firstn n (all_writes P ss)).
+Proof. reflexivity. Qed.
+
+Lemma img_w : forall c w, In c cs -> In w (ch_written c) -> d (w_slot w) = cell_of w.
+Proof.
+  intros c w Hc Hw. rewrite d_eq. apply (disk_after_spec _ W_nodup). rewrite W_eq. apply in_concat.
+  exists (ch_written c). split; [apply in_map, Hc| exact Hw].
+Qed.
+
+Lemma img_0 : forall x, (forall c w, In c cs -> In w (ch_written c) -> w_slot w <> x) -> d x = cell0.
+Proof.
+  intros x Hx. rewrite d_eq. apply (disk_after_spec _ W_nodup). intros Hin. apply in_map_iff in Hin.
+  destruct Hin as (w & Hs & Hw). rewrite W_eq in Hw. apply in_concat in Hw. destruct Hw as (l & Hl & Hw).
+  apply in_map_iff in Hl. destruct Hl as (c & <- & Hc). apply (Hx c w Hc Hw Hs).
+Qed.
+
+Lemma cs_slots_nodup : NoDup (concat (map (fun c => map w_slot (ch_ws c)) cs)).
+Proof. rewrite cs_slots. apply (wo_slots N P ss WO). Qed.
+
+Lemma cs_files_nodup : NoDup (map (ch_f N) cs).
+Proof. rewrite cs_files. apply (wo_files N P ss WO). Qed.
+
+Theorem crash_sound : forall k c, hit_after N P ss n None k = Some c ->
+  exists s, completed P ss n s /\ s_key s = k /\ c = full_stream s.
+Proof.
+  intros k c Hh. unfold hit_after in Hh. fold d in Hh. fold oi in Hh.
+  pose proof (wo_N N P ss WO) as HN.
+  destruct (hit_only N P oi d HN cs cs_good cs_slots_nodup cs_files_nodup img_w img_0 k c Hh) as (c0 & Hc0 & Hco & Hk).
+  pose proof (hit_complete N P oi d HN cs cs_good cs_slots_nodup cs_files_nodup img_w img_0 c0 Hc0 Hco) as Hs.
+  unfold cs in Hc0. apply in_map_iff in Hc0. destruct Hc0 as ([s m] & <- & Hsm).
+  pose proof (L_in _ Hsm) as Hin. cbn [fst] in Hin.
+  cbn [chain_of ch_key fst] in Hk, Hs. rewrite Hk in Hs. rewrite Hs in Hh. rewrite (serve_full s m Hin) in Hh.
+  injection Hh as <-. exists s. split; [|split; [exact Hk| reflexivity]].
+  unfold ch_complete, chain_of in Hco. cbn [ch_m ch_ws fst snd] in Hco.
+  apply (split_n_completed ss n s m Hsm Hco).
+  destruct (sess_writes s Hin) as (_ & _ & _ & _ & _ & Hne). unfold nwrites.
+  destruct (writes_of P s); [congruence| cbn [length]; lia].
+Qed.
+
+Theorem crash_complete : forall s, completed P ss n s ->
+  hit_after N P ss n None (s_key s) = Some (full_stream s).
+Proof.
+  intros s Hc. pose proof (completed_in P ss n s Hc) as Hin. apply completed_split in Hc.
+  unfold hit_after. fold d. fold oi. pose proof (wo_N N P ss WO) as HN.
+  assert (Hc0 : In (chain_of P (s, nwrites P s)) cs) by (unfold cs; apply in_map, Hc).
+  pose proof (hit_complete N P oi d HN cs cs_good cs_slots_nodup cs_files_nodup img_w img_0 _ Hc0) as Hs.
+  cbn [chain_of ch_key fst] in Hs. rewrite Hs; [apply (serve_full s _ Hin)|].
+  unfold ch_complete. reflexivity.
+Qed.
+
+End AtCrash.
+End Bridge.
+
+(* ------------------------------------------------------------------------------------------------------------
+   Part 5. The theorems about workloads, and a decidable form of their hypothesis.
+   ------------------------------------------------------------------------------------------------------------ *)
+Theorem write_once_crash_consistent : forall N P ss, write_once N P ss ->
+  forall n, crash_consistent N P ss n None.
+Proof. intros N P ss WO n k c H. apply (crash_sound N P ss WO n k c H). Qed.
+
+Theorem write_once_completed_served : forall N P ss, write_once N P ss ->
+  forall n s, completed P ss n s -> hit_after N P ss n None (s_key s) = Some (full_stream s).
+Proof. intros N P ss WO n s H. apply (crash_complete N P ss WO n s H). Qed.
+
+Lemma all_writes_app : forall P a b, all_writes P (a ++ b) = all_writes P a ++ all_writes P b.
+Proof. intros. unfold all_writes. now rewrite map_app, concat_app. Qed.
+
+Theorem write_once_survives : forall N P ss, write_once N P ss -> forall s, In s ss -> survives N P ss s.
+Proof.
+  intros N P ss WO s Hin. unfold survives. apply (write_once_completed_served N P ss WO).
+  apply in_split in Hin. destruct Hin as (l1 & l2 & ->). exists l1, l2. split; [reflexivity|].
+  replace (l1 ++ s :: l2) with ((l1 ++ [s]) ++ l2) by (rewrite <- app_assoc; reflexivity).
+  rewrite (all_writes_app P (l1 ++ [s]) l2), app_length. lia.
+Qed.
+
+(* a boolean form of [write_once] *)
+Fixpoint nodupb (l : list Z) : bool :=
+  match l with [] => true | x :: r => negb (existsb (Z.eqb x) r) && nodupb r end.
+
+Lemma nodupb_sound : forall l, nodupb l = true -> NoDup l.
+Proof.
+  induction l as [|x l IH]; intros H; [constructor|]. cbn [nodupb] in H. apply andb_prop in H. destruct H as [H1 H2].
+  constructor; [|apply IH, H2]. intros Hin. apply negb_true_iff in H1.
+  assert (existsb (Z.eqb x) l = true); [|congruence]. apply existsb_exists. exists x. split; [exact Hin| apply Z.eqb_refl].
+Qed.
+
+Definition sess_ok_b (N P : Z) (s : session) : bool :=
+  (0 <? s_obj s) && (0 <? s_ver s) && (0 <? s_len s) && (0 <? s_mlen s) && (s_mlen s <=? s_len s) &&
+  (s_mlen s <=? Z.min P (dc_page_size - dc_cell_header_size)) && (s_ssz s =? 0) &&
+  (length (s_slots s) =? length (chunks P (stream (s_obj s) (s_len s))))%nat &&
+  forallb (fun c => (0 <=? c) && (c <? N)) (s_slots s).
+
+Definition write_once_b (N P : Z) (ss : list session) : bool :=
+  (0 <? N) && (0 <? P) && forallb (sess_ok_b N P) ss && nodupb (concat (map s_slots ss)) &&
+  nodupb (map (fun s => fileno_of N (s_key s)) ss) && nodupb (map s_obj ss).
+
+Lemma write_once_b_sound : forall N P ss, write_once_b N P ss = true -> write_once N P ss.
+Proof.
+  intros N P ss H. unfold write_once_b in H.
+  apply andb_prop in H. destruct H as [H Hobjs]. apply andb_prop in H. destruct H as [H Hfiles].
+  apply andb_prop in H. destruct H as [H Hslots]. apply andb_prop in H. destruct H as [H Hsess].
+  apply andb_prop in H. destruct H as [HN HP].
+  constructor; try (apply nodupb_sound; assumption); try lia.
+  intros s Hs. rewrite forallb_forall in Hsess. specialize (Hsess s Hs). unfold sess_ok_b in Hsess.
+  apply andb_prop in Hsess. destruct Hsess as [Hsess Hrange]. apply andb_prop in Hsess. destruct Hsess as [Hsess Hlen].
+  apply andb_prop in Hsess. destruct Hsess as [Hsess Hssz]. apply andb_prop in Hsess. destruct Hsess as [Hsess Hms].
+  apply andb_prop in Hsess. destruct Hsess as [Hsess Hml]. apply andb_prop in Hsess. destruct Hsess as [Hsess Hm0].
+  apply andb_prop in Hsess. destruct Hsess as [Hsess Hl]. apply andb_prop in Hsess. destruct Hsess as [Ho Hv].
+  constructor; try lia.
+  intros c Hc. rewrite forallb_forall in Hrange. specialize (Hrange c Hc). lia.
+Qed.
+
+(* the hypotheses are satisfiable, and the theorems are not vacuous: three stores (3 slots, 1 slot, 2 slots),
+   8 slots of 4 payload bytes; killed after 5 of the 6 writes, the first two objects are hits, the third is not *)
+Definition ex_ops : list op := [OStore (1, 0) 1 5 10 2 0; OStore (2, 0) 2 6 3 2 0; OStore (3, 0) 3 7 5 1 0].
+
+Lemma ex_write_once : write_once 8 4 (sessions_of 8 4 ex_ops).
+Proof. apply write_once_b_sound. vm_compute. reflexivity. Qed.
+
+Lemma ex_hits_after_crash :
+  map (fun k => match hit_after 8 4 (sessions_of 8 4 ex_ops) 5 None k with Some c => Some (segments c []) | None => None end)
+      [(1, 0); (2, 0); (3, 0)]
+  = [Some [(1, 0, 10)]; Some [(2, 0, 3)]; None].
+Proof. vm_compute. reflexivity. Qed.
